@@ -540,7 +540,7 @@ SUBS = [
 # as CPython lets it: a switch interval of a microsecond); each call is judged on its own arguments
 def enum_threads(tier):
     for arg in ARG_LIST:
-        yield {"arg": arg, "threads": 4, "calls": 1500 if tier == "quick" else 20000}
+        yield {"arg": arg, "threads": 4, "calls": 5000 if tier == "quick" else 20000}
 
 
 def run_threads(ctx, case):
@@ -586,7 +586,7 @@ def run_threads(ctx, case):
 
 
 SUBS.append(Sub("concurrent-constructors", run_threads, kind="enum", enumerate=enum_threads, shards=(4, 8),
-                rule="each of the 21 validated arguments: 4 threads x 1500 (thorough 20000) constructor calls alternating the required shape and wrong shapes, thread switch interval 1 us; "
+                rule="each of the 21 validated arguments: 4 threads x 5000 (thorough 20000) constructor calls alternating the required shape and wrong shapes, thread switch interval 1 us; "
                      "every call judged on its own arguments; finite, enumerated", nontrivial_required=False))
 
 from ..core import optimised_child_sub  # noqa: E402
